@@ -166,6 +166,51 @@ def run(ctx):
             elif o.startswith("err internal"):
                 fails.append({"what": f"{fn.__name__} on arguments of the wrong type fails with {o.split()[-1]} instead of the "
                                       f"documented unknown-key / unknown-entity error", "args": [str(a) for a in args]})
+    # the process environment must not matter: every index entry through every loader again in child
+    # processes run with -O (assert statements stripped), under another time zone and hash seed
+    import json as _json
+    import subprocess
+    child = ("import sys, json\n"
+             "sys.path.insert(0, %r)\n"
+             "import kio.index as k\n"
+             "from kio.schema.index import schema_name_map, api_key_map\n"
+             "from kio.static.constants import EntityType\n"
+             "inv = {v: key for key, v in api_key_map.items()}\n"
+             "out = []\n"
+             "def call(fn, *a):\n"
+             "    try:\n"
+             "        r = fn(*a)\n"
+             "        return getattr(r, '__module__', None) + ':' + r.__qualname__ if isinstance(r, type) else r.__name__\n"
+             "    except Exception as e:\n"
+             "        return 'err ' + type(e).__name__\n"
+             "for name, vm in schema_name_map.items():\n"
+             "    for v, tm in vm.items():\n"
+             "        for et in tm:\n"
+             "            out.append([name, v, et.name, call(k.load_entity_module, name, v, et), call(k.load_entity_schema, name, v, et)])\n"
+             "            if name in inv and et.name in ('request', 'response'):\n"
+             "                out.append([name, v, et.name, call(k.load_payload_module, inv[name], v, et),\n"
+             "                            call(k.load_request_schema if et.name == 'request' else k.load_response_schema, inv[name], v)])\n"
+             "out.append(['unknown', call(k.load_entity_module, 'no_such_api', 0, EntityType.request), call(k.load_request_schema, 10**6, 0)])\n"
+             "print(json.dumps(out))\n") % os.path.join(common.REPO, "src")
+    def run_child(env_, flags=()):
+        r = subprocess.run([common.PY, *flags, "-c", child], stdout=subprocess.PIPE, stderr=subprocess.PIPE,
+                           env={**os.environ, **env_}, timeout=600)
+        return r.stdout.decode().strip() or ("ERR " + r.stderr.decode()[-300:])
+    base_out = run_child({"TZ": "UTC"})
+    for label, env_, flags in (("python -O", {"TZ": "UTC"}, ("-O",)), ("python -OO", {"TZ": "UTC"}, ("-OO",)),
+                               ("PYTHONHASHSEED=7, TZ=America/New_York", {"TZ": "America/New_York", "PYTHONHASHSEED": "7"}, ())):
+        o = run_child(env_, flags)
+        n += 1
+        if o != base_out:
+            try:
+                a0, a1 = _json.loads(base_out), _json.loads(o)
+                k_ = next(j for j in range(len(a0)) if a0[j] != a1[j])
+                detail = f"{a0[k_]} vs {a1[k_]}"
+            except Exception:  # noqa: BLE001
+                detail = o[:300]
+            fails.append({"what": f"the index loaders give another result under {label}: {detail[:300]}", "python": o[:200]})
+    if base_out.startswith("ERR"):
+        ctx.notes.append("environment child failed: " + base_out[:200])
     for _ in range(200):
         nm = "".join(rng.choice("abcdefghijklmnopqrstuvwxyz_") for _ in range(rng.randint(1, 12)))
         o, _ = outcome(kidx.load_entity_schema, nm, rng.randint(-3, 20), EntityType.request)
